@@ -21,6 +21,7 @@ R5  composite components: every container of sub-components evaluated in calc_va
 R6  layering: atom::apply_force() is called only from the atom-group layer (atom_group::apply_colvar_force,
     group_force_object), which rotates forces back to the laboratory frame and adds the forces on the fitting group
 R12 the winner of a search loop is reset at every evaluation
+R13 the scalar and the non-scalar branch of a value-type dispatch keep one sign convention
 R11 value and force of a per-coordinate vector component use the same element <-> coordinate map
 R10 fit gradients are switched off only by components whose value is stationary under the fit (squared deviations)
 R9  a quadratic energy and the force terms next to it share the prefactor
@@ -1203,7 +1204,61 @@ def r12(F, rep):
         raise AnalysisBroken("C01-R12: no arg-min selection of a member inside a search loop found (rmsd atomPermutation expected)")
 
 
+def r13(F, rep):
+    rep.rule("C01-R13", "one sign convention on both sides of a value-type dispatch: where a component assigns the same target in "
+                        "the branch for scalar values and in the branch for the other types (if (x.type() == type_scalar) ... "
+                        "else ...), each local variable that occurs in one term of the right-hand side (linear normal form, "
+                        "constant locals resolved) carries the same sign in both branches -- the derivative code that follows "
+                        "is written once, for one convention (reference minus value, or value minus reference)")
+    import re
+    from .rules_c02 import nf
+    n = 0
+    for f in sorted(F.funcs.values(), key=lambda g: g.q):
+        if "/src/" not in f.file or f.body is None or not f.cls or f.cls not in F.subclasses(CVC, strict=True):
+            continue
+        res = X.const_locals(f)
+        locs = {d.get("n") for d in f.walk() if d["k"] == "VarDecl" and d.get("st") == "local" and d.get("n")}
+        for st in f.walk():
+            if st["k"] != "IfStmt" or len(st["c"]) < 3:
+                continue
+            cs = st["c"]
+            cond, th, el = (cs[1], cs[2], cs[3]) if len(cs) == 4 else (cs[0], cs[1], cs[2])
+            if cond is None or th is None or el is None or "type_scalar" not in X.key(cond, f):
+                continue
+
+            def assigns(branch):
+                out = {}
+                for w, t in lvalue_writes(f):
+                    if w.get("op") != "=" or not any(y is w for y in f.walk(branch)):
+                        continue
+                    rhs = X.kids(w)[1] if w["k"] == "BinaryOperator" else (X.call_args(w)[1] if len(X.call_args(w)) > 1 else None)
+                    if rhs is not None:
+                        out.setdefault(X.re_strip(X.key(t, f)), (w, rhs))
+                return out
+            A, B = assigns(th), assigns(el)
+            for tgt in sorted(set(A) & set(B)):
+                def signs(rhs):
+                    out = {}
+                    for sg, key in nf(f, rhs, res):
+                        for name in set(re.findall(r"[A-Za-z_]\w*", key)) & locs:
+                            out.setdefault(name, set()).add(sg)
+                    return {k: v for k, v in out.items() if len(v) == 1}
+                sa, sb = signs(A[tgt][1]), signs(B[tgt][1])
+                common = sorted(set(sa) & set(sb))
+                if not common:
+                    continue
+                n += 1
+                bad = [k for k in common if sa[k] != sb[k]]
+                rep.add("C01-R13", "%s|%s" % (f.q, tgt), f.loc(B[tgt][0]), "%s: `%s` is assigned in both branches of the scalar/non-scalar dispatch; %s" % (
+                    f.q, tgt, "every shared variable has the same sign in both" if not bad else "`%s` enters with opposite signs" % bad[0]), not bad,
+                    detail="the value may only depend on the square of this quantity, but the gradient is proportional to it: forces on the "
+                           "non-scalar components get the wrong sign while the reported energy is unchanged", func=f.q)
+    if n < 2:
+        raise AnalysisBroken("C01-R13: only %d targets assigned on both sides of a scalar/non-scalar dispatch found" % n)
+
+
 def run(F, rep, tier):
+    r13(F, rep)
     r12(F, rep)
     r11(F, rep)
     r10(F, rep)
